@@ -133,7 +133,7 @@ pub fn report_panic(r: &mut Report, args: &Args, case_idx: u64, p: &PanicInfo, w
     let mut rp = args.case_replay(case_idx);
     rp["log_tail"] = json!(dump_log(w, 60));
     rp["case_desc"] = extra;
-    r.violation("no-panic", &format!("panic@{}", p.site()), format!("panic: {} at {}", p.msg, p.loc), rp);
+    r.violation("no-panic", &p.sig(), format!("panic: {} at {}", p.msg, p.loc), rp);
 }
 
 // ---------------------------------------------------------------------------------------------
